@@ -955,6 +955,56 @@ def lateinval_engine(pid, spec, tier, seed, workdir, res):
         res['samples'].append(open(lp).readline().strip()[:400])
 
 
+OVERLAP_SCENARIOS = {
+    'C08': ['replace', 'second-variant-stored'],
+    'C19': ['second-variant-stored', 'second-variant-invalidated'],
+    'C20': ['second-variant-stale'],
+}
+OVERLAP_CODES = {
+    'C08': ['replaced-representation-served', 'variant-lost'],
+    'C19': ['orphan-after-invalidation'],
+    'C20': ['revalidation-count'],
+}
+
+
+def overlap_engine(pid, spec, tier, seed, workdir, res):
+    """C08 / C19 / C20: requests of the same client while a stale-while-revalidate background validation is in flight
+    (its answer decided by the origin, held, released afterwards)."""
+    known = load_known()
+    out = os.path.join(workdir, 'overlap')
+    os.makedirs(out, exist_ok=True)
+    rc, log = run_harness('TestOverlap', {}, out, timeout=900)
+    lp = os.path.join(out, 'overlap.txt')
+    if rc != 0 or not os.path.exists(lp):
+        res['errors'].append('overlap experiment failed to run: ' + log[-800:])
+        return
+    kinds = res['distribution']
+    for line in open(lp):
+        m = re.match(r'OVERLAP scenario=(\S+) \| (.*) (ok|BAD|SKIP)$', line.strip())
+        if not m or m.group(1) not in OVERLAP_SCENARIOS.get(pid, []):
+            continue
+        res['evaluations'] += 1
+        kinds['overlap:' + m.group(1) + ':' + m.group(3)] = kinds.get('overlap:' + m.group(1) + ':' + m.group(3), 0) + 1
+        if m.group(3) == 'SKIP':
+            res['errors'].append('overlap experiment %s did not reach its overlap: %s' % (m.group(1), m.group(2)))
+            continue
+        res['nontrivial'].add('overlap-' + m.group(1))
+        if m.group(3) == 'BAD':
+            pm = re.search(r'problems="(.*)"', m.group(2))
+            probs = [x.strip() for x in (pm.group(1) if pm else '').split(' ; ') if x.strip()]
+            mine = [x for x in probs if x.split(':')[0] in OVERLAP_CODES[pid]]
+            other = [x for x in probs if x not in mine]
+            for x in mine:
+                code = pid + ':' + x.split(':')[0]
+                if not known_open(pid, code, known):
+                    res['violations'].append(dict(kind='monitor', code=code, case='overlap-' + m.group(1),
+                                                  payload=dict(experiment=line.strip(), what=x,
+                                                               note='harness/overlap_test.go, TestOverlap, scenario ' + m.group(1))))
+            if other and not mine:
+                res['mismatches'].append(dict(case='overlap-' + m.group(1), exchange=0, why='overlap experiment: ' + '; '.join(other)[:600],
+                                              payload=dict(experiment=line.strip())))
+
+
 def build_race_harness():
     with Lock('harness-race'):
         out_bin = os.path.join(BUILD, 'harness.race.test')
